@@ -293,6 +293,9 @@ class Interp(Ops):
                 return VClass(imp[1].name)
             if imp is not None and imp[0] == "func" and name not in self.lib:
                 return VClosure(imp[1], None)
+            rx = self.regex_constant(name)
+            if rx is not None:
+                return rx
             if name in mod.functions and "." not in name:
                 return VClosure(mod.functions[name], None)
             if name in mod.globals and name not in self.lib:
@@ -306,6 +309,25 @@ class Interp(Ops):
         if self.db.lookup(name) is not None:
             return VContractFn(name)
         raise Unsupported(f"unknown name {name!r}")
+
+    def regex_constant(self, name):
+        """VALID_ID / VALID_NAME: read the pattern from the tree and translate it"""
+        try:
+            mod = self.repo.module("repid/_utils/regex_validators.py")
+        except Unsupported:
+            return None
+        node = mod.globals.get(name)
+        if node is None or not (isinstance(node, ast.Call) and ast.unparse(node.func) == "re.compile"):
+            return None
+        from .regex import compile_re
+        pat = ast.literal_eval(node.args[0])
+        rx = compile_re(pat)
+
+        def fullmatch(ip, args, kwargs, n):
+            s = ip.unopt(args[0])
+            ip.st.uses_strings = True
+            return VOpt(z3.Not(z3.InRe(s.term, rx)), VOpaque(z3.Const("re_match", Opaque)))
+        return VModule("regex:" + name, {"fullmatch": VBuiltin(name + ".fullmatch", fullmatch)})
 
     def eval_module_const(self, mod, name):
         node = mod.globals[name]
